@@ -1,4 +1,4 @@
-import ApolloModel.Proofs.AstSelections
+import ApolloModel.Proofs.AstDocument3
 /-
 C08 — AST serialization round-trips.
 
@@ -45,6 +45,39 @@ theorem selection_set_print_parse (ss : Sels) (rest : List Tok) (hne : ss ≠ .n
     pSelectionSet (szSels ss) (toksOf (curly (cSels ss)) ++ rest) = some (ss, rest) := by
   rw [toksOf_curly, toksAll_cSels]
   simpa [pSelectionSet] using selsNE_roundtrip ss _ rest hne h (Nat.le_refl _)
+
+/-- **Main theorem.** For every configuration (indent prefix or none, initial level) and every well-formed
+    non-empty document — all 17 definition kinds, descriptions, directives, variables with defaults, values and
+    selection sets of any size and nesting — the reference parser reads the token stream of the serializer's output
+    back to exactly the document that was printed.  The shorthand query form is only ever written for the first
+    definition (`output_empty`), which is what makes the follow-token argument of the proof go through. -/
+theorem document_print_parse (pre : Option Str) (level : Nat) (doc : Document) (hne : doc ≠ [])
+    (h : wfDefinitions doc = true) :
+    pDocument (szDefinitions doc) (toksOf (cDocument (outputEmptyAtStart pre level) doc)) = some doc := by
+  rw [toksOf_cDocument]
+  exact document_roundtrip _ doc _ hne h (Nat.le_refl _)
+
+/-- every definition on its own (as `Display for Definition` prints it, `output_empty = true`) -/
+theorem definition_print_parse (oe : Bool) (d : Definition) (rest : List Tok) (h : wfDefinition d = true)
+    (hr : defFollow rest = true) :
+    pDefinition (szDefinition d) (toksOf (cDefinition oe d) ++ rest) = some (d, rest) := by
+  rw [toksOf_cDefinition]
+  exact first_definition_roundtrip oe d _ rest h (Nat.le_refl _) hr
+
+/-- serializing the re-parsed AST gives byte-identical text, for every configuration -/
+theorem reprint_identical (pre : Option Str) (level : Nat) (doc doc' : Document) (hne : doc ≠ [])
+    (h : wfDefinitions doc = true)
+    (hp : pDocument (szDefinitions doc) (toksOf (cDocument (outputEmptyAtStart pre level) doc)) = some doc') :
+    (serializeDocument pre level doc').out = (serializeDocument pre level doc).out := by
+  rw [document_print_parse pre level doc hne h] at hp
+  cases hp; rfl
+
+/-- Why the shorthand form is restricted to the first definition: written after `type T` it would be read as
+    the fields of `T` (kernel-evaluated witness on the token streams). -/
+theorem shorthand_elsewhere_breaks :
+    pDocument 40 (tDefinition false (.objectDef none "T".toList [] [] [])
+        ++ tDefinition true (.operation .query none [] [] (.cons (.field none "a".toList [] [] .nil) .nil)))
+      = none := by decide +kernel
 
 /-- the hypotheses are satisfiable by a non-trivial selection: `a: b(x: [1, {y: E}]) @d { ... on T { c } ...F }` -/
 example : wfSel (.field (some "a".toList) "b".toList
